@@ -276,8 +276,18 @@ theorem decodeField_ser {P : Params} (hP : P.valid = true) (S : Schema) (total f
       cases v with
       | str s =>
         simp only [wf, decide_eq_true_eq] at hv
-        simp only [hf, hz, hnoc, ↓reduceIte, decide_true, Bool.and_self, decodeStr_ser _ _ _ _ _ hv]
-        generalize readStr f.ty.isBinary true total rest.length (TVal.str s) = o
+        have hbp : P.binarySeesThroughPtr = true := by
+          have h := hP
+          simp only [Params.valid, Bool.and_eq_true] at h
+          exact h.2
+        have hisb : (f.ty.isBinary || (P.binarySeesThroughPtr && f.ty.deref.isBinary)) = f.ty.deref.isBinary := by
+          rw [hbp]
+          cases hty : f.ty with
+          | base k => cases k <;> rfl
+          | ptr e => simp [Ty.isBinary, Ty.deref]
+          | _ => rfl
+        simp only [hf, hz, hnoc, ↓reduceIte, decide_true, Bool.and_self, hisb, decodeStr_ser _ _ _ _ _ hv]
+        generalize readStr f.ty.deref.isBinary true total rest.length (TVal.str s) = o
         cases o <;> simp only [Outcome.mapv, gt_iff_lt, Nat.lt_irrefl, ↓reduceIte]
       | _ => simp [TVal.tag] at hv11
     · have hnoc' : f.nocopy = false := by simpa using hnoc
